@@ -15,7 +15,6 @@ open EM
 structure CoreWF (cfg : EdCfg) (c : CoreNC) : Prop where
   line : WF c.line
   saved : WF c.saved
-  idx : c.histIdx ≤ histLen cfg
   ring : RingOK c.ring
 
 def EdWF (cfg : EdCfg) (s : Ed) : Prop := CoreWF cfg s.coreNC
@@ -26,8 +25,8 @@ theorem EdWF.of_core {cfg : EdCfg} {s s' : Ed} (h : EdWF cfg s) (hc : s'.core = 
 theorem EdWF.of_coreNC {cfg : EdCfg} {s s' : Ed} (h : EdWF cfg s) (hc : s'.coreNC = s.coreNC) : EdWF cfg s' := by
   unfold EdWF; rw [hc]; exact h
 
-theorem EdWF.mk' {cfg : EdCfg} {s : Ed} (h1 : WF s.line) (h2 : WF s.saved) (h3 : s.histIdx ≤ histLen cfg)
-    (h4 : RingOK s.ring) : EdWF cfg s := ⟨h1, h2, h3, h4⟩
+theorem EdWF.mk' {cfg : EdCfg} {s : Ed} (h1 : WF s.line) (h2 : WF s.saved)
+    (h4 : RingOK s.ring) : EdWF cfg s := ⟨h1, h2, h4⟩
 
 /-- a line-buffer operation that is total on well-formed buffers and keeps them well formed -/
 def LMSafe {α : Type} (op : LM α) : Prop := ∀ lb, WF lb → ∃ r lb' ns, op lb = .ok (r, lb', ns) ∧ WF lb'
@@ -44,14 +43,14 @@ theorem wp_lb_safe {α : Type} {op : LM α} (hop : LMSafe op) {s : Ed} (h : EdWF
     (hq : ∀ a s', EdWF cfg s' → s'.saved = s.saved → s'.histIdx = s.histIdx → s'.ring = s.ring → Q a s') :
     wp (lb S U op) Q E s := by
   obtain ⟨r, l, ns, ho, hw⟩ := hop s.line h.line
-  exact wp_lb S U ho (hq _ _ ⟨hw, h.saved, h.idx, h.ring⟩ rfl rfl rfl)
+  exact wp_lb S U ho (hq _ _ ⟨hw, h.saved, h.ring⟩ rfl rfl rfl)
 
 theorem wp_lbQuiet_safe {α : Type} {op : LM α} (hop : LMSafe op) {s : Ed} (h : EdWF cfg s)
     {Q : α → Ed → Prop} {E : Outcome → Ed → Prop}
     (hq : ∀ a s', EdWF cfg s' → s'.saved = s.saved → s'.histIdx = s.histIdx → s'.ring = s.ring → Q a s') :
     wp (lbQuiet op) Q E s := by
   obtain ⟨r, l, ns, ho, hw⟩ := hop s.line h.line
-  exact wp_lbQuiet ho (hq _ _ ⟨hw, h.saved, h.idx, h.ring⟩ rfl rfl rfl)
+  exact wp_lbQuiet ho (hq _ _ ⟨hw, h.saved, h.ring⟩ rfl rfl rfl)
 
 /-- (for helpers that do not panic) -/
 theorem safe_refreshLine (hnp : cfg.hinterPanicAt = none) {s : Ed} (h : EdWF cfg s) :
@@ -93,7 +92,7 @@ theorem safe_editInsert (hnp : cfg.hinterPanicAt = none) (c : Char) (n : Nat) {s
   · intro _ s' ⟨r, l, ns, hi, hc⟩
     obtain ⟨r', l', ns', hi', hw⟩ := C03_insert_total_wf S U c n s.line h.line
     rw [hi] at hi'; cases hi'
-    have : EdWF cfg ({ s with line := l, changes := s.changes.onNotifs S U.alnum ns } : Ed) := ⟨hw, h.saved, h.idx, h.ring⟩
+    have : EdWF cfg ({ s with line := l, changes := s.changes.onNotifs S U.alnum ns } : Ed) := ⟨hw, h.saved, h.ring⟩
     exact this.of_core hc
   · intro o s' ⟨_, _, e, he⟩
     obtain ⟨r', l', ns', hi', _⟩ := C03_insert_total_wf S U c n s.line h.line
@@ -182,7 +181,7 @@ theorem safe_validate (hv : ∀ t, cfg.validator t ≠ .panic) {s : Ed} (h : EdW
     wp (validate S U cfg) (fun _ s' => EdWF cfg s') (fun o _ => o ≠ .panic) s := by
   refine wp_mono (validate_spec S U cfg s) ?_ ?_
   · intro v s' ⟨h1, h2, h3, h4, _⟩
-    exact EdWF.mk' (by rw [h1]; exact h.line) (by rw [h2]; exact h.saved) (by rw [h4]; exact h.idx)
+    exact EdWF.mk' (by rw [h1]; exact h.line) (by rw [h2]; exact h.saved)
       (by rw [h3]; exact h.ring)
   · intro o s' ⟨_, _, h3⟩
     rcases h3 with ⟨rfl, _⟩ | ⟨_, hp⟩
@@ -202,7 +201,7 @@ theorem safe_execAccept (hv : ∀ t, cfg.validator t ≠ .panic) (hnp : cfg.hint
         obtain ⟨_, r, ns, hi⟩ := hm
         obtain ⟨r', l', ns', hi', hw⟩ := C03_insert_total_wf S U '\n' 1 s.line h.line
         rw [hi] at hi'; cases hi'; exact hw
-    exact EdWF.mk' hl (by rw [h2]; exact h.saved) (by rw [h4]; exact h.idx) (by rw [h3]; exact h.ring)
+    exact EdWF.mk' hl (by rw [h2]; exact h.saved) (by rw [h3]; exact h.ring)
   · intro o s' hE
     rcases hE with ⟨_, h3⟩ | ⟨_, hne, _⟩
     · rcases h3 with ⟨rfl, _⟩ | ⟨_, _, hp⟩ | ⟨_, _, _, e, he⟩
@@ -251,7 +250,7 @@ theorem wp_lbKill_safe {α : Type} {op : LM α} (hop : LMSafe op) {s : Ed} (h : 
   rw [ho]
   simp only [hg]
   refine hq _ _ ?_
-  exact EdWF.mk' hw h.saved h.idx hk'
+  exact EdWF.mk' hw h.saved hk'
 
 theorem lmsafe_kill (mvt : Movement) : LMSafe (LB.kill S U mvt) :=
   fun lb h => C03_kill_total_wf S U mvt lb h
@@ -273,7 +272,7 @@ theorem safe_editInsertText (t : Text) (hnp : cfg.hinterPanicAt = none) {s : Ed}
   · simp only [wp_bind, wp_getLine]
     obtain ⟨r, l, ns, hi, hw⟩ := C03_insertStr_total_wf S U s.line.pos t s.line h.line h.line (Nat.le_refl _)
     refine wp_lb S U hi ?_
-    exact safe_refreshLine S U cfg hnp (EdWF.mk' hw h.saved h.idx h.ring)
+    exact safe_refreshLine S U cfg hnp (EdWF.mk' hw h.saved h.ring)
 
 theorem wp_ringYank_safe {s : Ed} (h : EdWF cfg s) {Q : Option Text → Ed → Prop} {E : Outcome → Ed → Prop}
     (hq : ∀ t s', EdWF cfg s' → Q t s') : wp ringYank Q E s := by
@@ -282,7 +281,7 @@ theorem wp_ringYank_safe {s : Ed} (h : EdWF cfg s) {Q : Option Text → Ed → P
   unfold wp ringYank
   rw [hy]
   refine hq _ _ ?_
-  exact EdWF.mk' h.line h.saved h.idx hk'
+  exact EdWF.mk' h.line h.saved hk'
 
 theorem wp_ringYankPop_safe {s : Ed} (h : EdWF cfg s) {Q : Option (Nat × Text) → Ed → Prop}
     {E : Outcome → Ed → Prop} (hq : ∀ t s', EdWF cfg s' → Q t s') : wp ringYankPop Q E s := by
@@ -291,14 +290,14 @@ theorem wp_ringYankPop_safe {s : Ed} (h : EdWF cfg s) {Q : Option (Nat × Text) 
   unfold wp ringYankPop
   rw [hy]
   refine hq _ _ ?_
-  exact EdWF.mk' h.line h.saved h.idx hk'
+  exact EdWF.mk' h.line h.saved hk'
 
 theorem safe_ringKill (t : Text) {s : Ed} (h : EdWF cfg s) : Safe cfg (ringKill t) s := by
   have hr : RingOK s.ring := h.ring
   obtain ⟨k', hy, hk'⟩ := hr.kill_ok t .append
   unfold Safe wp ringKill
   rw [hy]
-  exact EdWF.mk' h.line h.saved h.idx hk'.reset
+  exact EdWF.mk' h.line h.saved hk'.reset
 
 end
 end Rl
